@@ -2,7 +2,7 @@ SPECIFICATION TSpec
 CONSTANTS
   Sites = {"host-udp", "host-udpmux", "host-tcpmux", "srflx-own", "srflx-mux", "srflx-mapped", "relay"}
   Faults = {"none", "listen-error", "dup"}
-  Defects = {"closeSkipsOld"}
+  Defects = {}
   MaxCycles = 3
   MaxRestarts = 2
   MaxRefused = 3
